@@ -1717,6 +1717,21 @@ class PSBTOut:
                 except ValueError:
                     raise ValueError(f"pubkey is not in WitnessScript {self}")
         elif self.redeem_script:
+            if (
+                not script_pubkey.is_p2sh()
+                or self.redeem_script.hash160() != script_pubkey.commands[1]
+            ):
+                raise ValueError(
+                    "RedeemScript hash160 and ScriptPubKey hash160 do not match"
+                )
+            if self.redeem_script.is_p2wpkh():
+                # p2sh-p2wpkh: the RedeemScript holds the hash160 of the key
+                if len(self.named_pubs) > 1:
+                    raise ValueError("too many pubkeys in p2sh-p2wpkh")
+                for named_pub in self.named_pubs.values():
+                    if self.redeem_script.commands[1] != named_pub.hash160():
+                        raise ValueError("pubkey does not match the hash160")
+                return
             for sec in self.named_pubs.keys():
                 try:
                     # this will raise a ValueError if it's not in there
